@@ -5,6 +5,7 @@ import (
 	"errors"
 	"fmt"
 	"io"
+	"math"
 	"slices"
 	"strconv"
 	"strings"
@@ -155,15 +156,10 @@ func Cmp(ei, ej Object) int {
 	tj := ej.Type()
 	if areIntFloat(ti, tj) {
 		// We have float and integer, let's sort them together.
-		var v1, v2 float64
 		if ti == INTEGER {
-			v1 = float64(ei.(Integer).Value)
-			v2 = ej.(Float).Value
-		} else {
-			v1 = ei.(Float).Value
-			v2 = float64(ej.(Integer).Value)
+			return cmpIntFloat(ei.(Integer).Value, ej.(Float).Value)
 		}
-		return cmp.Compare(v1, v2)
+		return -cmpIntFloat(ej.(Integer).Value, ei.(Float).Value)
 	}
 	if ti < tj {
 		return -1
@@ -243,6 +239,25 @@ func Cmp(ei, ej Object) int {
 		panic(fmt.Sprintf("Unexpected type in Cmp: %s", ti))
 	}
 	return 1
+}
+
+// cmpIntFloat compares an integer and a float exactly: converting the integer to float64 would round
+// integers beyond 2^53 and make the ordering non transitive (2^53 == 2^53 as float == 2^53+1 yet 2^53 < 2^53+1).
+// NaN sorts before any number, like in cmp.Compare.
+func cmpIntFloat(i int64, f float64) int {
+	switch {
+	case math.IsNaN(f):
+		return 1
+	case f >= 1<<63:
+		return -1
+	case f < -(1 << 63):
+		return 1
+	}
+	t := math.Trunc(f)
+	if c := cmp.Compare(i, int64(t)); c != 0 {
+		return c
+	}
+	return cmp.Compare(0, f-t) // same integer part, the fractional part decides.
 }
 
 func CompareKeys(a, b keyValuePair) int {
